@@ -62,6 +62,51 @@ pub fn emit_eval_case(p: &Prog, rng: &mut Rng, out: &mut Out, kind: &str) {
             } else { out.oracle_ok(); }
         }
     }
+    // native oracle for Sum / CumSum: an independent reference written from the NumPy rules
+    // (numpy.sum over a set of axes, in whatever order they are listed; numpy.cumsum along one axis)
+    for (n, v) in nodes.iter().zip(vals.iter()) {
+        let op = n.get_operation();
+        if !matches!(op, Operation::Sum(_) | Operation::CumSum(_)) { continue; }
+        let deps = n.get_node_dependencies();
+        let (ta, tr) = (deps[0].get_type().unwrap(), n.get_type().unwrap());
+        if !ta.is_array() { continue; }
+        if let (Outcome::Ok(rv), Outcome::Ok(av)) = (v, &vals[deps[0].get_id() as usize]) {
+            let st = ta.get_scalar_type();
+            let w = st.size_in_bits();
+            let m = |x: u128| if w >= 128 { x } else { x & ((1u128 << w) - 1) };
+            let a = av.to_flattened_array_u128(ta.clone()).unwrap();
+            let sa = ta.get_shape();
+            let got: Vec<u128> = if tr.is_scalar() { vec![m(rv.to_u128(st).unwrap())] } else { rv.to_flattened_array_u128(tr.clone()).unwrap().iter().map(|x| m(*x)).collect() };
+            let total: u64 = sa.iter().product();
+            let unrank = |mut r: u64| -> Vec<u64> { let mut idx = vec![0u64; sa.len()]; for d in (0..sa.len()).rev() { idx[d] = r % sa[d]; r /= sa[d]; } idx };
+            let exp: Vec<u128> = match &op {
+                Operation::Sum(axes) => {
+                    let keep: Vec<usize> = (0..sa.len()).filter(|d| !axes.contains(&(*d as u64))).collect();
+                    let osz: u64 = keep.iter().map(|d| sa[*d]).product();
+                    let mut acc = vec![0u128; osz as usize];
+                    for r in 0..total {
+                        let idx = unrank(r);
+                        let mut o = 0u64;
+                        for d in keep.iter() { o = o * sa[*d] + idx[*d]; }
+                        acc[o as usize] = acc[o as usize].wrapping_add(a[r as usize]);
+                    }
+                    acc.into_iter().map(m).collect()
+                }
+                Operation::CumSum(axis) => {
+                    let ax = *axis as usize;
+                    let stride: u64 = sa[ax + 1..].iter().product();
+                    let mut acc = vec![0u128; total as usize];
+                    for r in 0..total {
+                        let idx = unrank(r);
+                        acc[r as usize] = if idx[ax] == 0 { a[r as usize] } else { acc[(r - stride) as usize].wrapping_add(a[r as usize]) };
+                    }
+                    acc.into_iter().map(m).collect()
+                }
+                _ => unreachable!(),
+            };
+            if got != exp { out.violation(&format!("{}-differs-from-numpy-reference", op_name(&op)), json!({"op": format!("{}", op), "a": format!("{}", ta), "ops": ops}), format!("got {:?} expected {:?}", &got[..std::cmp::min(6, got.len())], &exp[..std::cmp::min(6, exp.len())])); } else { out.oracle_ok(); }
+        }
+    }
     // native oracle for Dot / Matmul: an independent reference written from the NumPy rules
     for (n, v) in nodes.iter().zip(vals.iter()) {
         let op = n.get_operation();
@@ -163,8 +208,46 @@ fn batch_pattern_program(rng: &mut Rng, idx: usize) -> Prog {
     Prog { ctx, g, input_types: vec![t0, t1], attempts: vec![] }
 }
 
+/// all ordered lists of distinct axes of an array of this rank
+fn ordered_axis_lists(rank: u64) -> Vec<Vec<u64>> {
+    fn go(rank: u64, cur: &mut Vec<u64>, res: &mut Vec<Vec<u64>>) {
+        if !cur.is_empty() { res.push(cur.clone()); }
+        for a in 0..rank { if !cur.contains(&a) { cur.push(a); go(rank, cur, res); cur.pop(); } }
+    }
+    let mut res = vec![];
+    go(rank, &mut vec![], &mut res);
+    res
+}
+
+/// Sum over an explicitly ordered axis list (the operation keeps the order it is given)
+fn sum_axes_program(rng: &mut Rng, rank: u64, axes: Vec<u64>) -> Prog {
+    let ctx = ciphercore_base::graphs::create_context().unwrap();
+    let g = ctx.create_graph().unwrap();
+    let st = *rng.pick(&ALL_ST);
+    let shape: Vec<u64> = (0..rank).map(|_| 2 + rng.below(2)).collect();
+    let t = array_type(shape, st);
+    let x = g.input(t.clone()).unwrap();
+    let o = x.sum(axes).unwrap();
+    g.set_output_node(o).unwrap();
+    g.finalize().unwrap();
+    ctx.set_main_graph(g.clone()).unwrap();
+    ctx.finalize().unwrap();
+    Prog { ctx, g, input_types: vec![t], attempts: vec![] }
+}
+
 pub fn run(tier: &str, seed: u64, out: &mut Out) {
     let mut rng = Rng::new(seed ^ 0xC10);
+    // Sum over every ordered axis list of rank-3 arrays and a sample (all, in the thorough tier) of rank 4
+    let mut lists: Vec<(u64, Vec<u64>)> = ordered_axis_lists(3).into_iter().map(|l| (3, l)).collect();
+    let l4 = ordered_axis_lists(4);
+    let take4 = if tier == "quick" { 20 } else { l4.len() };
+    let start = rng.below(l4.len() as u64) as usize;
+    for j in 0..take4 { lists.push((4, l4[(start + j * 7) % l4.len()].clone())); }
+    for (rank, axes) in lists {
+        let p = sum_axes_program(&mut rng, rank, axes);
+        out.stat("stream:sum-ordered-axes");
+        emit_eval_case(&p, &mut rng, out, "eval_sum_axes");
+    }
     let n_pat = match tier { "thorough" => 28 * 5, "search" => 28 * 10, _ => 28 };
     for i in 0..n_pat {
         let p = batch_pattern_program(&mut rng, i);
